@@ -83,6 +83,12 @@ def _gen_mode(rng, prog, kind, n_events, horizon_ns):
         if rng.random() < 0.5:
             mode["hook_pause_at"] = rng.randrange(1, max(2, n_events + 1))
             mode["hooks"] = True
+        if rng.random() < 0.35:
+            # round 8: pause() pressed from inside an on_time_advance hook, at the k-th advance of the clock, i.e. after
+            # the next event has been taken off the heap and before it is invoked (C04-r8-1: the loop put that event
+            # back through schedule(), which renumbered it behind its same-instant peers)
+            mode["time_pause_at"] = rng.randrange(1, max(2, n_events + 1))
+            mode["hooks"] = True
         for _ in range(rng.randrange(1, 12)):
             r = rng.random()
             if r < 0.5:
@@ -283,8 +289,13 @@ def drive(prog, mode, res: Result | None = None, check_positions: bool = True, b
 
             ctl.on_event(on_event)
 
+            t_pause = mode.get("time_pause_at")
+
             def on_time(t):
                 info["time_hook_calls"] += 1
+                if t_pause is not None and info["time_hook_calls"] == t_pause:
+                    info["pauses_from_time_hook"] = info.get("pauses_from_time_hook", 0) + 1
+                    ctl.pause()
 
             ctl.on_time_advance(on_time)
         for spec in mode.get("bps") or []:
@@ -342,7 +353,7 @@ def drive(prog, mode, res: Result | None = None, check_positions: bool = True, b
                         "step-delivered-nothing" + ("-after-pause-while-paused" if op == "pause_step" else ""),
                         f"step({cmd['n']}) delivered no event although the run is still active with events pending",
                     )
-                if res is not None and not mode.get("bps") and mode.get("hook_pause_at") is None and not mode.get("hook_bps") and not any(c["op"] == "add_bp" for c in script):
+                if res is not None and not mode.get("bps") and mode.get("hook_pause_at") is None and mode.get("time_pause_at") is None and not mode.get("hook_bps") and not any(c["op"] == "add_bp" for c in script):
                     got = after.events_processed - before
                     if got != cmd["n"] and (after.is_running or got > cmd["n"]):
                         res.add(
@@ -482,6 +493,7 @@ def run_modes(case: dict) -> Result:
             res.count("modes_compared")
             res.count("steps_checked", info["steps_checked"])
             res.count("breakpoint_pauses_checked", info["bp_pauses_checked"])
+            res.count("pauses_from_time_hook", info.get("pauses_from_time_hook", 0))
             inside += info["pauses_inside_run"]
             comp = "SimulationControl" if mode.get("control") else ("TraceRecorder" if mode.get("recorder") else "EventTracing")
             if out["log"] != base_out["log"]:
